@@ -166,7 +166,11 @@ func (w *World) deliver(dl *delivery) {
 		}
 	}
 	before := to.part.Progress()
+	if w.vo != nil {
+		w.vo.beforeValidate(to, msg)
+	}
 	vm, err := to.part.ValidateMessage(w.ctx, msg)
+	w.verifyHook = nil
 	w.checkValidationSample(to, dl, msg, err)
 	if err != nil {
 		cls := errClass(err)
